@@ -79,4 +79,16 @@ def byWindows (nt aa : Alphabet) (g : Gencode) (wc : Wcfg) (W : Nat) (w : Work) 
 def translateFile (step : Work → List Nat → Option Work) (w : Work) (seqs : List (List Nat)) : Option Work :=
   seqs.foldlM step w
 
+/-! ## the text `esl_gencode_ProcessOrf` prints when there is no ORF block: `esl_sqio_Write(wrk->outfp, psq, eslSQFILE_FASTA, FALSE)` -/
+
+/-- residue lines of `esl_sqascii_WriteFasta`: 60 symbols per line (`fuel` ≥ number of lines) -/
+def fastaLines : Nat → List Nat → List Nat
+  | 0, _ => []
+  | fuel + 1, l => if l.isEmpty then [] else l.take 60 ++ [10] ++ fastaLines fuel (l.drop 60)
+
+/-- one record: `>orf<n> source=… coords=… length=… frame=… desc=…`, then the residues as amino-acid symbols -/
+def fastaOrf (aa : Alphabet) (source desc : String) (o : Orf) : List Nat :=
+  strBytes (">" ++ orfName o ++ " " ++ orfDesc source desc o ++ "\n") ++
+    fastaLines o.aa.length (o.aa.map fun x => aa.sym.getD x 63)
+
 end EaselModel.Gencode
